@@ -1266,6 +1266,7 @@ func gridLayout(context *layoutContext, box_ Box, bottomSpace pr.Float, skipStac
 							// 2. Set the item’s row-/column-start lines.
 							setPosition(child, rect{x, y, width, height})
 							ensureRows(y + height)
+							cursorX = x // the cursor stays where the item was placed
 							hasBroken = true
 							break
 						}
